@@ -68,6 +68,20 @@ CHECKS = {
          "harness name tables written from MPD's tag table / idle docs / Picard mapping", "cmdlab"),
 }
 
+# dimensions added after the seeded-change waves (DESIGN.md section 6d), appended to the texts above
+EXTRA = {
+ "C01": " Also: long sessions (30-160 race scenarios on one connection), greeting versions, vectored/stalled writes, events handle dropped; every 4th case under an everything-enabled tracing subscriber (all properties); fz_sim libFuzzer campaign in the thorough tier.",
+ "C02": " Also: one line of 2^k+d bytes (4 KiB-4 MiB) with read boundaries next to its end; payloads tiled from protocol look-alikes.",
+ "C03": " Also: responses of 65 535-1 000 000 lines in one piece; key families sharing first/last byte and length.",
+ "C04": " Also: long sessions with recurring key-rich replies, events receiver not polled (up to 10 000 pending), mixed-width unknown subsystem names; fz_sim campaign in the thorough tier.",
+ "C05": " Also: write stalls, long sessions, and (beyond the stated quantifier, declared as such) client-side faults incl. a transient Interrupted write; fz_sim campaign in the thorough tier.",
+ "C08": " Also: E8 (a caller told that the connection failed => client reports closed), giant replies (1.25-80 MiB line), events handle held but unpolled with up to 2100 pending notifications; fz_sim campaign in the thorough tier.",
+ "C10": " Also: receives interrupted by a transient WouldBlock / dropped while pending and called again; responses of 70 000-1 000 000 lines cut at and around their boundaries.",
+ "C14": " Each case additionally varies the connection's history (key cache, buffer growth) and the parameters of the decoding command object.",
+ "C16": " Each case additionally varies the connection's history; sticker/channel names and values include multi-byte characters.",
+ "C17": " Also: greeting versions, chunk lengths varying mid-transfer, errors on continuation requests, up to 1100 chunks.",
+}
+
 BUILT = sys.argv[1].split(",") if len(sys.argv) > 1 else []
 
 checks = []
@@ -81,7 +95,7 @@ for pid, (level, tech, text, note, engine) in CHECKS.items():
             "evidence_file": f"/verif/evidence/{pid}.json",
             "replay_cmd_template": f"./check {pid} quick --replay {{path}}",
             "engine": engine,
-            "level_claimed": {"category": level, "text": text, "design_ref": f"DESIGN.md section 4, {pid}"},
+            "level_claimed": {"category": level, "text": text + EXTRA.get(pid, ""), "design_ref": f"DESIGN.md section 4, {pid}"},
             "level_note": note,
             "technique": tech,
         })
@@ -101,9 +115,9 @@ manifest = {
     "engines": [
         {"name": "cmdlab", "path": "/verif/harness/vcheck/src/cmdlab.rs", "serves_properties": ["C06", "C07", "C11", "C13", "C15", "C20"], "kind_free_text": "proptest generators + ports of MPD's tokenizer and filter parser as oracles"},
         {"name": "streamlab", "path": "/verif/harness/vcheck/src/wire.rs", "serves_properties": ["C02", "C03", "C09", "C10", "C18", "C19"], "kind_free_text": "independent wire encoder, reference decoder, segmenting transports"},
-        {"name": "typedlab", "path": "/verif/harness/vcheck/src/typed.rs", "serves_properties": ["C12", "C14", "C16"], "kind_free_text": "abstract replies/listings encoded and pushed through the real parser into typed decoders"},
+        {"name": "typedlab", "path": "/verif/harness/vcheck/src/props/c12.rs", "serves_properties": ["C12", "C14", "C16"], "kind_free_text": "abstract replies/listings encoded and pushed through the real parser into typed decoders"},
         {"name": "sim", "path": "/verif/harness/vcheck/src/sim.rs", "serves_properties": ["C01", "C04", "C05", "C08", "C13", "C17", "C18"], "kind_free_text": "deterministic session simulator: simulated MPD, harness-owned transport, virtual clock, seeded select!"},
-        {"name": "fuzz", "path": "/verif/fuzz", "serves_properties": ["C02", "C09", "C12", "C06", "C11"], "kind_free_text": "cargo-fuzz/libFuzzer targets carrying the same oracles (thorough tier)"},
+        {"name": "fuzz", "path": "/verif/fuzz", "serves_properties": ["C02", "C09", "C12", "C06", "C11", "C01", "C04", "C05", "C08"], "kind_free_text": "cargo-fuzz/libFuzzer targets carrying the same oracles (thorough tier)"},
     ],
     "checks": checks,
     "not_applicable": na,
